@@ -96,7 +96,7 @@ def build_native(ctx, h, cfg, tag):
 def run_engine(ctx, bc, out_json, time_limit, inputs=None, extra=(), mem_gb=None):
     cmd = [ENGINE, bc, '--json', out_json, '--time-limit', str(time_limit)] + list(extra)
     if inputs is not None: cmd += ['--inputs', inputs]
-    mem_kb = int(mem_gb or os.environ.get('VERIF_MEM_GB', '10')) * 1024 * 1024
+    mem_kb = int(mem_gb or os.environ.get('VERIF_MEM_GB', '14')) * 1024 * 1024
     t0 = time.time()
     try:
         r = subprocess.run(['bash', '-c', 'ulimit -v %d; exec "$@"' % mem_kb, 'x'] + cmd, stdout=subprocess.PIPE, stderr=subprocess.PIPE, text=True, timeout=time_limit + 60)
